@@ -581,6 +581,11 @@ def run_property(prop, tier, verbose=False):
         for r, r2 in zip(todo, again):
             crosschecked += 1
             r["crosscheck"] = {"back_end": r2["solver"], "status": r2["status"], "solver_s": r2.get("solver_s")}
+            if r2["status"] == "error":
+                # the second back end gave NO verdict (timeout, out of memory, undecided): that is not a disagreement
+                crosschecked -= 1
+                r["crosscheck"]["note"] = "no verdict on the second back end: %s" % (str(r2.get("error"))[:200])
+                continue
             if r2["status"] != "pass" or r2["obligations"] != r["obligations"]:
                 r["status"] = "error"
                 r["error"] = "back ends disagree: %s says %s (%d obligations), %s says %s (%d obligations): %s" % (
